@@ -113,6 +113,11 @@ func (e *Enc) run() {
 	e.locksAtEntry()
 	e.entrySpecs()
 	e.nEntryAsm = len(e.asm)
+	// `at entry ghost g = e`: initial values of function-level ghosts, before the first instruction
+	if len(f.Blocks) > 0 {
+		e.curBlock = f.Blocks[0]
+	}
+	e.applyAts("entry", "", token.NoPos, nil, nil)
 
 	order := e.topo()
 	for _, b := range order {
